@@ -103,6 +103,11 @@ type accept struct {
 	err    bool // a suppressible error is acceptable
 	noVal  bool // only an error is acceptable
 	clause string
+	// intOnly: both operands are integers and the exact result is an integer
+	// that fits in int64 - the result is that integer, not the double the
+	// IEEE operation gives (which is observably different: -0, a fraction part
+	// when printed, 2^53 rounding further down the chain)
+	intOnly bool
 }
 
 func ratOfFloat(f float64) *big.Rat { return new(big.Rat).SetFloat64(f) }
@@ -170,6 +175,7 @@ func arithOracle(op string, l, r operand) accept {
 			if tq.Num().IsInt64() {
 				a.vals = append(a.vals, tq)
 				if exact.IsInt() {
+					a.intOnly = true
 					return a
 				}
 				if f, ok := nearest(exact); ok {
@@ -179,6 +185,7 @@ func arithOracle(op string, l, r operand) accept {
 			}
 		} else if exact.IsInt() && exact.Num().IsInt64() {
 			a.vals = append(a.vals, exact)
+			a.intOnly = true
 			return a
 		}
 		// does not fit in int64: the IEEE double result, never a wrapped integer
@@ -335,6 +342,11 @@ func judgeArith(c *h.Ctx, o *h.Out, a accept, cs h.Case, feat map[string]string)
 	}
 	for _, v := range a.vals {
 		if v.Cmp(got) == 0 {
+			if a.intOnly && !isIntegerItem(o.Items[0]) {
+				feat["got"] = "double-instead-of-integer"
+				c.Violate(a.clause, feat, fmt.Sprintf("%s returned the double %s (%T); both operands are integers and the exact result %s fits in int64, so the result is that integer", cs.Path, h.CanonTyped(o.Items[0]), o.Items[0], ratsText(a.vals)), cs)
+				return
+			}
 			c.Held(a.clause)
 			if c.WantSample(a.clause) {
 				c.Sample(a.clause, map[string]any{"path": cs.Path, "operands": cs.Extra, "result": o.Summary()})
@@ -347,6 +359,17 @@ func judgeArith(c *h.Ctx, o *h.Out, a accept, cs h.Case, feat map[string]string)
 		feat["got"] = "wrong-integer"
 	}
 	c.Violate(a.clause, feat, fmt.Sprintf("%s returned %s; expected %s", cs.Path, o.Summary(), ratsText(a.vals)), cs)
+}
+
+// isIntegerItem: an item in an integer representation.
+func isIntegerItem(v any) bool {
+	switch x := v.(type) {
+	case int64, int:
+		return true
+	case json.Number:
+		return !strings.ContainsAny(string(x), ".eE")
+	}
+	return false
 }
 
 func replayC13(c *h.Ctx, cs h.Case) {
@@ -421,8 +444,63 @@ func checkOperandChains(c *h.Ctx) {
 	}
 }
 
+// checkLoudAfterQuiet: an arithmetic failure inside a filter condition is
+// quiet (the condition is unknown), and that is all it is: arithmetic that
+// fails later in the same evaluation, outside any condition, still fails
+// loudly - whatever was suppressed before it.
+func checkLoudAfterQuiet(c *h.Ctx) {
+	quiet := []string{"exists(@.s * 2)", "@.s * 2 > 0", "exists(@.n / 0)", "@.n / 0 > 1 || @.n == 1", "!(@.s + 1 == 2)", "@.n == @.s.double()", "@.s.double() == @.n", "(@.n % 0 == 1) is unknown", "exists(-@.s)", "@.n == -@.s",
+		"exists(@ ? (@.s * 2 > 0))", "exists(@.n ? (@ / 0 > 0))", "@.n / 0 > 1 && @.s * 1 > 1", "exists(@.arr[*] * 2)", "exists(@.n + @.arr[*])", `@.s like_regex "x" && exists(@.s / 1)`, "@.n == 1"}
+	loud := []string{".n / 0", ".n % 0", ".s + 1", ".s * 2", ".n / $[0].z", ".n + $[*].n", ".arr + 1", ".n - $[1].s", ".n.double() / 0", ".arr[*] / 0"}
+	unary := []string{".s", ".t", ".nul"}
+	doc := `[{"n":1,"s":"x","z":0,"arr":[1,2],"t":true,"nul":null},{"n":1,"s":"2","z":0,"arr":[3,4],"t":false,"nul":null}]`
+	k := 0
+	for _, q := range quiet {
+		for _, mode := range []string{"", "strict "} {
+			var forms []string
+			for _, l := range loud {
+				forms = append(forms, mode+"$[*] ? ("+q+")"+l, mode+"($[*] ? ("+q+" || @.n == 1))[0]"+l)
+			}
+			for _, u := range unary {
+				forms = append(forms, mode+"-$[*] ? ("+q+" || @.n == 1)"+u, mode+"+($[*] ? ("+q+" || @.n > 0)"+u+")")
+			}
+			for _, ptxt := range forms {
+				k++
+				if !c.Mine(k) {
+					continue
+				}
+				p := cachedPath(ptxt)
+				if p == nil {
+					c.Count("gen.unparsable", 1)
+					continue
+				}
+				for _, useNum := range []bool{false, true} {
+					cs := h.Case{Kind: "loud-after-quiet", Path: ptxt, Doc: doc, UseNum: useNum}
+					for _, entry := range []string{"query", "first", "exists"} {
+						if entry == "exists" && (strings.HasPrefix(strings.TrimPrefix(ptxt, "strict "), "-") || strings.HasPrefix(strings.TrimPrefix(ptxt, "strict "), "+")) {
+							continue // what Exists answers for a unary operator as the last step is C06's business (known finding there)
+						}
+						o := h.Call(entry, p, h.Decode(doc, useNum), h.Opts{})
+						c.Eval(1)
+						switch {
+						case o.Class == h.Panic || o.Class == h.Invalid:
+							c.Skip("loud-after-quiet", "panic-or-invalid-is-C05")
+						case o.Class != h.Soft:
+							c.Violate("loud-after-quiet", h.F("entry", entry, "got", o.Class), fmt.Sprintf("%s(%s) returned %s; the arithmetic after the filter cannot succeed (zero divisor, non-numeric or non-singleton operand) and must fail with a suppressible error", entry, ptxt, o.Summary()), cs)
+						default:
+							c.Held("loud-after-quiet")
+						}
+					}
+				}
+				c.Distinct(ptxt)
+			}
+		}
+	}
+}
+
 func runC13(c *h.Ctx) {
 	checkOperandChains(c)
+	checkLoudAfterQuiet(c)
 	reprs := []string{"lit", "f64", "num"}
 	idx := 0
 	for _, lt := range c13Grid {
